@@ -1,8 +1,6 @@
 package peers
 
 import (
-	"encoding/binary"
-
 	"verif/sim"
 )
 
@@ -62,24 +60,42 @@ func Corrupt(proto string, frame []byte, ch *sim.Choices) ([]byte, string) {
 		} else if len(f) >= 22 {
 			fields = []lenField{{14, 2, "classLen"}, {16, 2, "headerLen"}, {18, 4, "contentLen"}}
 		}
+	case "dubbo":
+		if len(f) >= 17 {
+			fields = []lenField{{12, 4, "dataLen"}, {16, 1, "hessianStringLen"}, {2, 1, "flag"}}
+		}
+	case "http2":
+		// frame is the start of a connection: preface, then frames
+		for off, i := 24, 0; off+9 <= len(f) && i < 6; i++ {
+			l := int(f[off])<<16 | int(f[off+1])<<8 | int(f[off+2])
+			fields = append(fields, lenField{off, 3, "frameLen#" + itoa(uint64(i))}, lenField{off + 3, 1, "frameType#" + itoa(uint64(i))}, lenField{off + 5, 4, "streamID#" + itoa(uint64(i))})
+			if l > 0 && f[off+3] == 1 {
+				fields = append(fields, lenField{off + 9, 1, "hpackFirstByte"})
+			}
+			off += 9 + l
+		}
+	}
+	rd := func(off, size int) uint64 {
+		var v uint64
+		for i := 0; i < size; i++ {
+			v = v<<8 | uint64(f[off+i])
+		}
+		return v
+	}
+	wr := func(off, size int, v uint64) {
+		for i := size - 1; i >= 0; i-- {
+			f[off+i] = byte(v)
+			v >>= 8
+		}
 	}
 	switch k := pick("corrupt_kind", 8); {
 	case k <= 3 && len(fields) > 0:
 		fl := fields[pick("corrupt_field", len(fields))]
-		var truth uint64
-		if fl.size == 2 {
-			truth = uint64(binary.BigEndian.Uint16(f[fl.off:]))
-		} else {
-			truth = uint64(binary.BigEndian.Uint32(f[fl.off:]))
-		}
+		truth := rd(fl.off, fl.size)
 		max := uint64(1)<<(8*fl.size) - 1
 		vals := []uint64{0, 1, 2, 3, max, truth + 1, truth - 1, max - 1, 1 << 31, 1<<31 - 1}
 		v := vals[pick("corrupt_val", len(vals))] & max
-		if fl.size == 2 {
-			binary.BigEndian.PutUint16(f[fl.off:], uint16(v))
-		} else {
-			binary.BigEndian.PutUint32(f[fl.off:], uint32(v))
-		}
+		wr(fl.off, fl.size, v)
 		return f, fl.name + "<-" + itoa(v)
 	case k == 4: // truncated
 		if len(f) > 1 {
